@@ -135,6 +135,16 @@ Theorem C19_merkle_odd_extension : forall (H : bytes -> bytes) l x,
 Proof. exact merkle_odd_extension. Qed.
 Print Assumptions C19_merkle_odd_extension.
 
+From Verif Require Import Codec.TxRoot Codec.TxRootProofs.
+
+(** The transaction root binds the ordered list of transaction identifier inputs. *)
+Theorem C19_txs_root_binding :
+  forall (H : bytes -> bytes) (hlen : nat), (forall x, List.length (H x) = hlen) ->
+  forall txs1 txs2, List.length txs1 = List.length txs2 -> txs_root H txs1 = txs_root H txs2 ->
+  List.map tx_hash_input txs1 = List.map tx_hash_input txs2 \/ collision H.
+Proof. exact txs_root_binding. Qed.
+Print Assumptions C19_txs_root_binding.
+
 (** * Receipts *)
 
 Theorem C19_fieldlists_receipt :
